@@ -1,5 +1,5 @@
 (* C19 proofs: GELU patterns are the documented functions of Gelu / FastGelu / BiasGelu in every field. *)
-From Coq Require Import List Field Ring Bool Arith.
+From Coq Require Import List Field Ring Bool Arith ZArith Lia.
 Require Import OV.Fusion.Field OV.Fusion.Gelu.
 Import ListNotations.
 
@@ -42,15 +42,25 @@ Section Laws.
     rewrite H, Nat.eqb_refl. reflexivity.
   Qed.
 
-  (* ... and `check` (bias has rank 1) does not imply that: a row of length 1 (or a bias of length 1) is a valid
-     broadcasting Add that the fused operator rejects. *)
-  Theorem bias_gelu_check_insufficient_refuted :
-    bias_gelu_check ApproxAbsent (Some 1%nat) = true /\
-    exists row bias : list F,
+  (* ... which `check` now guarantees: bias 1-D of length b, input of static last dimension b *)
+  Theorem bias_gelu_check_sufficient : forall a (row bias : list F) (lead : list Z),
+    bias_gelu_check a (Some [Z.of_nat (length bias)]) (Some (lead ++ [Z.of_nat (length row)])) = true ->
+    bias_gelu_pattern F o erf half sqrt2 row bias = bias_gelu_fused F o erf half sqrt2 row bias.
+  Proof.
+    intros a row bias lead H. apply bias_gelu_identity.
+    unfold bias_gelu_check in H. apply andb_prop in H. destruct H as [_ H].
+    rewrite rev_app_distr in H. simpl in H. apply Z.eqb_eq in H. lia.
+  Qed.
+
+  (* ... and which the check before the fix (bias has rank 1) did not: a row of length 1 (or a bias of length 1) is a
+     valid broadcasting Add that the fused operator rejects. *)
+  Theorem bias_gelu_check_old_insufficient_refuted :
+    bias_gelu_check_old ApproxAbsent (Some [2%Z]) = true /\
+    exists row bias : list F, length bias = 2 /\
       bias_gelu_pattern F o erf half sqrt2 row bias <> None /\ bias_gelu_fused F o erf half sqrt2 row bias = None.
   Proof.
     split; [reflexivity|].
-    exists [f0 o], [f0 o; f0 o]. split; [discriminate | reflexivity].
+    exists [f0 o], [f0 o; f0 o]. split; [reflexivity|]. split; [discriminate | reflexivity].
   Qed.
 
   (* whenever the fused operator accepts, it returns what the pattern returns (no silent change of value) *)
